@@ -243,4 +243,46 @@ Section Items.
     - eapply pbind_rel; [apply rel_max_content_contribution; eassumption|]. intros v v' Hvv. constructor.
       split; cbn [fst snd]; [exact Hvv|apply rel_set_ic_max; [exact Hg|exact Hvv]].
   Qed.
+  (* ---- 6. GridItem::minimum_contribution *)
+  Lemma rel_spanned_fixed_track_limit inner inner' it ts ts' :
+    O inner inner' -> tracks_rel k ts ts' -> O (spanned_fixed_track_limit inner it ts) (spanned_fixed_track_limit inner' it ts').
+  Proof.
+    intros Hin Hts. unfold spanned_fixed_track_limit, item_slice.
+    pose proof (rel_slice k ts ts' (range_start it) (range_len it) Hts) as Hsl.
+    revert Hsl. generalize (slice ts (range_start it) (range_len it)) (slice ts' (range_start it) (range_len it)). intros sl sl' Hsl.
+    assert (Hdv : forall t t', track_rel k t t' -> O (definite_value inner (maxf t)) (definite_value inner' (maxf t'))).
+    { intros t t' Ht. track_open Ht. apply (rel_definite_value k Hk); assumption. }
+    rewrite (rel_forallb (track_rel k) (fun t => match definite_value inner (maxf t) with Some _ => true | None => false end)
+                         (fun t => match definite_value inner' (maxf t) with Some _ => true | None => false end) sl sl'); [|..|exact Hsl].
+    - destruct (forallb _ sl); [|exact I]. cbn [op_rel]. apply rel_fsum. eapply rel_map; [|exact Hsl].
+      intros t t' Ht. specialize (Hdv t t' Ht). destruct (definite_value inner (maxf t)), (definite_value inner' (maxf t')); cbn [op_rel] in Hdv;
+        try contradiction; [exact Hdv|apply sc_zero].
+    - intros t t' Ht. specialize (Hdv t t' Ht). destruct (definite_value inner (maxf t)), (definite_value inner' (maxf t')); cbn [op_rel] in Hdv;
+        try contradiction; reflexivity.
+  Qed.
+
+  Definition mc_rest (ax : GAxis) (inner : Size (option XQ)) (g : @GItem XQ) (tracks : list (track XQ)) (space : Size (option XQ))
+             (from_size from_min : option XQ) (caps : option XQ * option XQ) : Prog (XQ * GItem) :=
+    let c := g_core g in
+    let from_overflow := if is_scroll_container (point_get_ax (overflow c) ax) then Some zero else None in
+    pbind
+      match opt_or from_size (opt_or from_min from_overflow) with
+      | Some v => PRet (v, g)
+      | None =>
+          let spans_auto_min_track := existsb (fun t => is_auto (minf t)) tracks in
+          let only_span_one_track := Nat.eqb (range_len (view ax g)) 1 in
+          let spans_a_flexible_track := existsb (fun t => is_fr (maxf t)) tracks in
+          if spans_auto_min_track && (only_span_one_track || negb spans_a_flexible_track) then
+            pbind (min_content_contribution_cached ax inner g space)
+                  (fun p => let '(mc, g1) := p in
+                            PRet (if gs_replaced (g_style g) then maybe_min_fo (maybe_min_fo mc (fst caps)) (snd caps) else mc, g1))
+          else PRet (zero, g)
+      end
+      (fun p => let '(sz, g1) := p in PRet (maybe_min_fo sz (spanned_fixed_track_limit (get_ax inner ax) (view ax g1) tracks), g1)).
+
+  Lemma minimum_contribution_unfold ax inner (g : @GItem XQ) ts space :
+    minimum_contribution ax inner g ts space =
+    mc_rest ax inner g ts space (get_ax (fst (fst (item_resolved (g_core g) inner))) ax) (get_ax (snd (fst (item_resolved (g_core g) inner))) ax)
+            (replaced_caps (g_core g) ax).
+  Proof. reflexivity. Qed.
 End Items.
